@@ -42,6 +42,8 @@ TOK = re.compile(r"""
  | (?P<pend>(?:\+\+|--)\s*(?:\w+\s*->\s*)?_pendingSpawns\b)
  | (?P<register>\b_threads\s*\.\s*emplace\s*\()
  | (?P<erase>\b_threads\s*\.\s*erase\s*\()
+ | (?P<textract>\b_threads\s*\.\s*extract\s*\()
+ | (?P<tinsert>\b_threads\s*\.\s*insert\s*\()
  | (?P<tclear>\b_threads\s*\.\s*clear\s*\()
  | (?P<tread>\b_threads\s*\.\s*(?:find|begin|end|size)\s*\()
  | (?P<titer>:\s*_threads\b)
@@ -189,6 +191,10 @@ def skeleton(body, where, skip_lambda=False):
             ev.append(("register", "_threads", held)); covered.append(m.start())
         elif m.group("erase"):
             ev.append(("erase", "_threads", held)); covered.append(m.start())
+        elif m.group("textract"):
+            ev.append(("extract", "_threads", held)); covered.append(m.start())
+        elif m.group("tinsert"):
+            ev.append(("insert-node", "_threads", held)); covered.append(m.start())
         elif m.group("tclear"):
             ev.append(("clear", "_threads", held)); covered.append(m.start())
         elif m.group("tread"):
@@ -252,6 +258,61 @@ def lambda_body(body):
     return body[b + 1:cxxscan.match_brace(body, b)]
 
 
+def split_args(text):
+    """top-level comma split of an argument list (text between the parentheses)"""
+    out, depth, cur = [], 0, ""
+    for ch in text:
+        if ch in "([{<":
+            depth += 1
+        elif ch in ")]}>":
+            depth -= 1
+        if ch == "," and depth == 0:
+            out.append(cur); cur = ""
+        else:
+            cur += ch
+    out.append(cur)
+    return [re.sub(r"\s+", "", x) for x in out]
+
+
+def registrations(fn_body, where):
+    """What is put into `_threads`: for every `_threads.emplace(key, value)` of the spawn function (worker lambda removed) the pair
+    (key expression, value expression), a key that is a local `auto k = expr;` resolved to its initialiser; plus the name of the
+    variable declared by `std::thread <name>(`.  The model's `create` step registers exactly the thread it has just created."""
+    m = re.search(r"\[\s*this\s*\]\s*\(\s*\)\s*\{", fn_body)
+    if m:
+        b = m.end() - 1
+        e = cxxscan.match_brace(fn_body, b)
+        fn_body = fn_body[:b] + "{}" + fn_body[e + 1:]
+    mv = re.search(r"\bstd::thread\s+(\w+)\s*\(", fn_body)
+    if not mv:
+        raise TranslateError("%s: `std::thread <name>(` not found" % where)
+    regs = []
+    for mm in re.finditer(r"\b_threads\s*\.\s*emplace\s*\(", fn_body):
+        o = mm.end() - 1
+        depth, k = 0, o
+        while True:
+            if fn_body[k] == "(":
+                depth += 1
+            elif fn_body[k] == ")":
+                depth -= 1
+                if depth == 0:
+                    break
+            k += 1
+        args = split_args(fn_body[o + 1:k])
+        if len(args) != 2:
+            raise TranslateError("%s: _threads.emplace with %d arguments" % (where, len(args)))
+        key, val = args
+        if re.fullmatch(r"\w+", key):
+            mi = re.search(r"\b(?:auto|std::thread::id)\s+%s\s*=\s*([^;]+);" % re.escape(key), fn_body)
+            if not mi:
+                raise TranslateError("%s: initialiser of the _threads key `%s` not found" % (where, key))
+            key = re.sub(r"\s+", "", mi.group(1))
+        regs.append((key, val))
+    if not regs:
+        raise TranslateError("%s: no _threads.emplace found" % where)
+    return mv.group(1), regs
+
+
 def lean_rows(rows):
     out = []
     for name, ev in rows:
@@ -279,6 +340,7 @@ def gen(repo):
         lam = lambda_body(swl)
     else:
         lam = lambda_body(sw)
+    created_var, regs = registrations(swl if has_locked else sw, "spawnWorkerLocked" if has_locked else "spawnWorker")
     rows.append(("worker", skeleton(lam, "worker lambda")))
     rows.append(("shutdown", skeleton(fb(src, "shutdown"), "shutdown")))
     rows.append(("phase1", skeleton(fb(src, "shutdownPhase1_SignalShutdown"), "shutdownPhase1_SignalShutdown")))
@@ -346,6 +408,9 @@ def gen(repo):
     t += "/-- constructor: default shutdown mode, initialiser of `_maxSize`, body of `effectiveMaxSize` (blanks removed) -/\n"
     t += 'def ctorDefaultMode : String := "%s"\ndef maxSizeInit : String := "%s"\ndef effectiveMaxSizeBody : String := "%s"\n' % (
         mc.group(1), mmax.group(1), eff_body)
+    t += "/-- what the spawn function puts into `_threads`: (key, value) of every `_threads.emplace`, and the `std::thread` variable it constructs -/\n"
+    t += "def registrations : List (String × String) := [%s]\n" % ", ".join('("%s", "%s")' % r for r in regs)
+    t += 'def createdThreadVar : String := "%s"\n' % created_var
     t += "/-- order of the destructor's phases -/\n"
     t += "def dtorPhases : List Nat := [%s]\n" % ", ".join(phases)
     t += "/-- constructor defaults: maxQueueSize, idleTimeout (s); `_workerScaling` -/\n"
